@@ -23,7 +23,7 @@ sys.path.insert(0, HERE)
 import extract  # noqa: E402
 from rustlex import mask, split_top_level  # noqa: E402
 
-BUILD = os.path.join(ROOT, "build")
+BUILD = os.environ.get("VERIF_BUILD") or os.path.join(ROOT, "build")
 VERUS = os.environ.get("VERUS", "verus")
 
 TRUST_PAT = re.compile(r"\bassume\s*\(|\badmit\s*\(|external_body|assume_specification|#\[verifier::external|\bexternal_fn_specification|#\[verifier::external_type_specification|accept_recursive_types|#\[verifier::exec_allows_no_decreases_clause")
@@ -287,7 +287,8 @@ def run_unit(unit, tier="quick", seeds=None):
     _ex = _cf.ThreadPoolExecutor(max_workers=int(os.environ.get("VERIF_JOBS", "12")))
     try:
         can = os.path.join(BUILD, f"{unit}__canary.rs")
-        cl0 = make_canary(gen, meta, can)
+        # the contract-strength self-tests re-run the unit on mutated copies: vacuity is decided by the main run only
+        cl0 = None if os.environ.get("VERIF_NO_CANARY") else make_canary(gen, meta, can)
         if cl0:
             cl[0] = cl0
             for ln_, nm_ in cl0.items():
